@@ -1,3 +1,219 @@
+import PB.Model.MicroTasks
 import PB.Drv.Loop
-/- Driver stub for C15 (model not built yet): every op is rejected. -/
-def main : IO Unit := PB.Drv.lineLoop (fun _ => "bad-op")
+/-!
+Driver for C15: **acceptor** for recorded traces of the microtask scheduler.
+
+One line per recorded event (canonicalised by harness/cmd/hx-c15); every event is mapped to the model
+action(s) it stands for, replayed through `PB.MicroTasks.step` (counters) and through `dstep` of the task
+it belongs to (every task of the trace is followed individually, i.e. for each task the run is a run of
+`fstep` with `me := (event belongs to the task)`). Counter values observed by the hooks under the
+linearising bracket are compared with the model's. Reply: `ok` or `reject <why>`.
+
+```
+lim <n> <0|1>                   start of a trace: configured limit; is a finished token left in the channel?
+new <tid> <cls> <var> <nil> <zd> task attributes (tid = 0,1,2,…; zd = 1: called with max delay 0)
+t <tid> nilret | submit <m|l> | hinc <cnt> | tmoenq <cnt> | tmowait | begin | moddec <out> | dec <cnt>
+        | tok <0|1> | ret <code> | doneagain
+s space <cnt> <lim> | full <cnt> <lim> | shut | grant <tid> | count <cnt> | other | woken | tick
+shutdown
+scn … / h …                     scenario description and harness observations: not model events, answered `ok`
+setmax <n>                      pure glue: the limit `SetMaxConcurrentMicroTasks n` configures
+end <cnt> <mods>                all calls returned and the scheduler settled: observed counters
+```
+-/
+namespace PB.Drv.C15
+open PB.MicroTasks
+
+structure Drv where
+  g : St
+  ts : Array DSt
+  held : Option Nat     -- task whose request the scheduler holds or has closed and not yet counted
+  antic : Bool          -- a `wakeToken` was inferred from a successful token send; the `woken` event is still to come
+  started : Bool
+
+def Drv.init : Drv := { g := PB.MicroTasks.init 0, ts := #[], held := none, antic := false, started := false }
+
+def actName (a : Act) : String := (reprStr a)
+
+/-- apply one model action; `who` = the task it belongs to (none: scheduler / environment) -/
+def app (x : Drv) (a : Act) (who : Option Nat) : Except String Drv := do
+  let g' ← match step x.g a with
+    | some g' => pure g'
+    | none => throw s!"model: {actName a} not enabled (spc={x.g.spc} cnt={x.g.cnt} fin={x.g.fin} hk={x.g.hk})"
+  let mut ts := x.ts
+  let mut held := x.held
+  match who with
+  | some t =>
+    match ts[t]? with
+    | none => throw s!"unknown task {t}"
+    | some d =>
+      match dstep d a true with
+      | some d' => ts := ts.set! t d'
+      | none => throw s!"task {t}: {actName a} out of program order (pc={d.pc} req={d.req} cls={d.cls} var={d.var})"
+    match a with
+    | .take _ _ => held := some t
+    | _ => pure ()
+  | none =>
+    match a, held with
+    | .close, some t | .count, some t =>
+      match ts[t]? with
+      | none => throw s!"unknown task {t}"
+      | some d =>
+        match dstep d a false with
+        | some d' => ts := ts.set! t d'
+        | none => throw s!"task {t}: {actName a} rejected"
+      if a == .count then held := none
+    | .close, none | .count, none => throw s!"{actName a} without a held request"
+    | _, _ => pure ()
+  return { x with g := g', ts := ts, held := held }
+
+def appAll (x : Drv) (as : List (Act × Option Nat)) : Except String Drv :=
+  as.foldlM (fun x (a, w) => app x a w) x
+
+def prioOf (cls : Nat) : Prio := if cls = 1 then .low else .med
+
+def chkCnt (x : Drv) (cnt : Int) : Except String Drv :=
+  if x.g.cnt = cnt then pure x else throw s!"counter: implementation {cnt}, model {x.g.cnt}"
+
+def taskEv (x : Drv) (t : Nat) (ev : List String) : Except String Drv := do
+  let d ← match x.ts[t]? with
+    | some d => pure d
+    | none => throw s!"unknown task {t}"
+  let high := decide (d.cls = 2)
+  let p := prioOf d.cls
+  let z := decide (d.zd = 1 ∧ d.var = 2)   -- timer of a Signal* call made with max delay 0
+  let me := some t
+  match ev with
+  | ["nilret"] => app x .callNil me
+  | ["submit", q] =>
+    match q with
+    | "m" => app x (.submit .med) me
+    | "l" => app x (.submit .low) me
+    | _ => throw "bad-op"
+  | ["hinc", c] =>
+    match c.toInt? with
+    | some c => do chkCnt (← appAll x [(.hcall, me), (.hinc, me)]) c
+    | none => throw "bad-op"
+  | ["tmoenq", c] =>
+    match c.toInt? with
+    | some c => do chkCnt (← appAll x [(.tmoEnq p z, me), (.tmoInc, me)]) c
+    | none => throw "bad-op"
+  | ["tmowait"] =>
+    if d.pc = 2 ∧ d.req = 1 then app x (.tmoWait p z) me
+    else if d.pc = 2 ∧ d.req = 2 then app x (.tmoHeld z) me
+    else app x (.tmoLate z) me
+  | ["begin"] => app x (.begin high) me
+  | ["moddec", o] =>
+    match o.toNat? with
+    | some o => appAll x [(.fnRet high o, me), (.modDec high, me)]
+    | none => throw "bad-op"
+  | ["dec", c] =>
+    match c.toInt? with
+    | some c => do chkCnt (← app x (.dec high) me) c
+    | none => throw "bad-op"
+  | ["tok", b] =>
+    match b with
+    | "1" =>
+      -- The scheduler logs its receive after the fact: a successful send into a channel the model
+      -- believes full, with the scheduler waiting, means the scheduler has taken the token already.
+      if x.g.fin = 1 ∧ x.g.spc = 5 ∧ !x.antic then do
+        let x ← app x .wakeToken none
+        app { x with antic := true } .tokSend me
+      else app x .tokSend me
+    | "0" => app x .tokDrop me
+    | _ => throw "bad-op"
+  | ["ret", c] =>
+    match c.toNat? with
+    | some c => do
+      let x ← app x .ret me
+      match x.ts[t]? with
+      | some d' =>
+        if d'.var = 0 ∧ d'.res ≠ c then throw s!"task {t}: caller got {c}, model {d'.res}" else pure x
+      | none => throw "unknown task"
+    | none => throw "bad-op"
+  | ["doneagain"] => app x .doneAgain me
+  | _ => throw "bad-op"
+
+def schedEv (x : Drv) (ev : List String) : Except String Drv := do
+  match ev with
+  | ["space", c, l] | ["full", c, l] =>
+    match c.toInt?, l.toNat? with
+    | some c, some l => do
+      if x.g.lim ≠ l then throw s!"limit: implementation {l}, model {x.g.lim}"
+      let x ← chkCnt x c
+      let x ← appAll x [(.flag, none), (.read, none)]
+      let want := if ev.head? = some "space" then 2 else 5
+      if x.g.spc = want then pure x
+      else throw s!"scheduler decided {ev.head?.getD ""} with counter {c} and limit {l}; the model's guard says otherwise"
+    | _, _ => throw "bad-op"
+  | ["shut"] => do
+    let x ← app x .flag none
+    if x.g.spc = 6 then pure x else throw "scheduler saw the shutdown flag, the model did not"
+  | ["grant", t] =>
+    match t.toNat? with
+    | some t =>
+      match x.ts[t]? with
+      | some d => appAll x [(.take (prioOf d.cls) (decide (d.pc ≠ 2)), some t), (.close, none)]
+      | none => throw s!"unknown task {t}"
+    | none => throw "bad-op"
+  | ["count", c] =>
+    match c.toInt? with
+    | some c => do chkCnt (← app x .count none) c
+    | none => throw "bad-op"
+  | ["other"] => app x .pickOther none
+  | ["woken"] => if x.antic then pure { x with antic := false } else app x .wakeToken none
+  | ["tick"] => app x .wakeTick none
+  | _ => throw "bad-op"
+
+def finalPc (d : DSt) : Bool := (d.pc = 9 ∨ d.pc = 10 ∨ d.pc = 11) ∧ (d.req = 0 ∨ d.req = 4 ∨ d.req = 5)
+
+def handle (x : Drv) (line : String) : Except String Drv := do
+  match PB.Drv.words line with
+  | ["lim", n, f] =>
+    match n.toNat?, f with
+    | some n, "0" => pure { Drv.init with g := PB.MicroTasks.init n, started := true }
+    | some n, "1" => pure { Drv.init with g := PB.MicroTasks.initTok n, started := true }
+    | _, _ => throw "bad-op"
+  | "new" :: [t, cls, var, nilm, zd] =>
+    match t.toNat?, cls.toNat?, var.toNat?, nilm.toNat?, zd.toNat? with
+    | some t, some cls, some var, some nilm, some zd =>
+      if !x.started then throw "no lim line"
+      else if t ≠ x.ts.size then throw s!"task ids must be consecutive (got {t}, expected {x.ts.size})"
+      else if cls > 2 ∨ var > 2 ∨ nilm > 1 ∨ zd > 1 then throw "bad-op"
+      else pure { x with ts := x.ts.push (DSt.new cls var nilm zd) }
+    | _, _, _, _, _ => throw "bad-op"
+  | "t" :: t :: ev =>
+    match t.toNat? with
+    | some t => if x.started then taskEv x t ev else throw "no lim line"
+    | none => throw "bad-op"
+  | "s" :: ev => if x.started then schedEv x ev else throw "no lim line"
+  | ["shutdown"] => if x.started then app x .shutdown none else throw "no lim line"
+  | "scn" :: _ => pure x      -- the scenario description, for the record
+  | "h" :: _ => pure x        -- harness-side observations, read by the monitor only
+  | ["end", c, m] =>
+    match c.toInt?, m.toInt? with
+    | some c, some m =>
+      if !x.started then throw "no lim line"
+      else if !decide x.g.quiescent then throw s!"end: model not quiescent"
+      else if x.g.cnt ≠ c then throw s!"end: counter: implementation {c}, model {x.g.cnt}"
+      else if x.g.mods ≠ m then throw s!"end: module counters: implementation {m}, model {x.g.mods}"
+      else match x.ts.toList.findIdx? (fun d => !finalPc d) with
+        | some i => throw s!"end: task {i} not finished in the model"
+        | none => pure x
+    | _, _ => throw "bad-op"
+  | _ => throw "bad-op"
+
+def stepLine (x : Drv) (line : String) : Drv × String :=
+  match PB.Drv.words line with
+  | ["setmax", n] =>
+    match n.toInt? with
+    | some n => (x, toString (PB.Gen.MicroTasks.setMax n))
+    | none => (x, "bad-op")
+  | _ =>
+  match handle x line with
+  | .ok x' => (x', "ok")
+  | .error e => (x, if e = "bad-op" then "bad-op" else "reject " ++ e)
+
+end PB.Drv.C15
+
+def main : IO Unit := PB.Drv.runState PB.Drv.C15.Drv.init PB.Drv.C15.stepLine
